@@ -315,6 +315,35 @@ func ruleR17d(c *Ctx) {
 			}
 			return true
 		})
-		c.check(has, "R17e", "ast.FloatNode.String float-literal", fd.Pos(), "integral values get a '.0' so that they parse back as floats", "integral floats print without a decimal point and parse back as integers")
+		// the decision must look at the formatted text (is there a '.' or an exponent?), not at the value:
+		// large integral values format with an exponent and must not get a second suffix
+		textual := false
+		ast.Inspect(fd.Body, func(x ast.Node) bool {
+			ifs, ok := x.(*ast.IfStmt)
+			if !ok {
+				return true
+			}
+			appends := false
+			ast.Inspect(ifs.Body, func(y ast.Node) bool {
+				if e, ok := y.(ast.Expr); ok && litOf(info, e) == ".0" {
+					appends = true
+				}
+				return true
+			})
+			if !appends {
+				return true
+			}
+			ast.Inspect(ifs.Cond, func(y ast.Node) bool {
+				if call, ok := y.(*ast.CallExpr); ok {
+					if cal := calleeFunc(call, info); cal != nil && cal.Pkg() != nil && cal.Pkg().Path() == "strings" {
+						textual = true
+					}
+				}
+				return true
+			})
+			return true
+		})
+		c.check(has && textual, "R17e", "ast.FloatNode.String float-literal", fd.Pos(), "values whose formatted text has neither '.' nor exponent get a '.0', so they parse back as floats",
+			"the '.0' suffix is missing, or is decided from the value instead of the formatted text: integral floats parse back as integers, or large ones print as 1e+21.0, which is not a number literal")
 	}
 }
